@@ -911,6 +911,303 @@ class C15(Property):
         return res
 
 
+HOSTILE_SNIPPETS = [
+    "segments: [" * 3000,
+    "a: &a [1,2]\nb: &b [*a,*a,*a,*a,*a,*a,*a,*a,*a]\nc: &c [*b,*b,*b,*b,*b,*b,*b,*b,*b]\nd: &d [*c,*c,*c,*c,*c,*c,*c,*c,*c]\ne: &e [*d,*d,*d,*d,*d,*d,*d,*d,*d]\nf: &f [*e,*e,*e,*e,*e,*e,*e,*e,*e]\ng: &g [*f,*f,*f,*f,*f,*f,*f,*f,*f]\nsegments: *g\n",
+    "segments:\n  - name: " + "x" * 100000 + "\n    files: [{path: a.o}]\n",
+    "segments:\n  - name: a\n    fixed_vram: 99999999999999999999999999999999\n    files: [{path: a.o}]\n",
+    "segments:\n  - name: a\n    fixed_vram: -1\n    files: [{path: a.o}]\n",
+    "segments:\n  - name: \u00e9\u00e9\n    files: [{path: \u00fc.o}]\nsettings: {linker_symbols_style: makerom, alloc_sections: [\u00e9a, .\u00df]}\n",
+    "settings: {sections_subgroups: {.text: [.text]}}\nsegments: [{name: a, files: [{path: a.o}]}]\n",
+    "settings: {sections_subgroups: {.text: [.data], .data: [.text]}}\nsegments: [{name: a, files: [{path: a.o}]}]\n",
+    "settings: {single_segment_mode: true}\nsegments: [{name: a, files: [{path: a.o}]}, {name: b, files: [{path: b.o}]}]\n",
+    "--- !!binary |\n  R0lGODlhDAAMAIQAAP\n",
+    "? [complex, key]\n: value\nsegments: []\n",
+    "segments:\n  - <<: *nope\n",
+    "segments: !!set {a, b}\n",
+    "\ufeffsegments: [{name: a, files: [{path: a.o}]}]\n",
+    "segments: [{name: a, files: [{path: a.o, section_order: {.data: .data}}]}]\n",
+    "segments: [{name: a, files: [{kind: group, files: [{kind: group, files: [{kind: group, files: []}]}]}]}]\n",
+    "settings: {alloc_sections: [], noload_sections: []}\nsegments: [{name: a, files: [{path: '{x}.o'}]}]\n",
+    "segments: [{name: a, vram_class: nope, files: [{path: a.o}]}]\n",
+    "segments: [{name: a, follows_segment: a, files: [{path: a.o}]}]\n",
+    "vram_classes: [{name: c, follows_classes: [c]}]\nsegments: [{name: a, vram_class: c, files: [{path: a.o}]}]\n",
+    "",
+    "~\n",
+    "segments:\n\t- name: a\n",
+]
+
+
+class C19(Property):
+    pid = "C19"
+    title = "never crashes; success means an acceptable script"
+    owns_errors = ()
+    quick_n = 900
+    thorough_n = 40000
+    rule = ("three streams from one seed: valid documents with identifier-safe names (successful generations of a sample are handed to "
+            "GNU ld -m elf_i386 and ld.lld with every referenced object present; only syntax diagnostics count), structurally mutated "
+            "value trees (nulls, wrong kinds, unknown keys, empty lists, cyclic/self-referential settings, non-ASCII names), and raw text: "
+            "byte-level mutations, truncations, deep nesting, alias bombs, huge numbers, tabs, tags, BOMs. Every input runs under "
+            "catch_unwind in a child with an address-space limit and a wall timeout; the outcome must be success or an error value. "
+            "Non-trivial: the input reaches generation, or is rejected after YAML parsing")
+    link_every = 12
+
+    def profile(self, r):
+        return Profile(p_braces=0.15, p_missing_key=0.02, p_single=0.2, p_partial=0.35, p_makerom=0.4, wellformed=(r.next() % 4 != 0),
+                       p_subgroups=0.4, p_section_order=0.3)
+
+    def make_case(self, seed, idx):
+        r = Rng(seed * 1000003 + idx * 7919 + 17)
+        c = gen.gen_case(r, self.profile(r), idx)
+        k = idx % 4
+        if k == 1:
+            C16().tweak(r, c)
+            if r.chance(0.3):
+                # self-referential / cyclic tables and hostile names
+                if not isinstance(c["doc"].get("settings"), dict):
+                    c["doc"]["settings"] = {}
+                st = c["doc"]["settings"]
+                st["sections_subgroups"] = r.pick([{".text": [".text"]}, {".a": [".b"], ".b": [".a"]}, {".data": [".rdata"], ".rdata": [".data2"], ".data2": [".rdata"]}])
+            if r.chance(0.2):
+                for sg in (c["doc"].get("segments") or []):
+                    if isinstance(sg, dict) and r.chance(0.5):
+                        sg["name"] = r.pick(["\u00e9t\u00e9", "\u00dfeg", "a b", "x;y", "s{eg", "\U0001F600", "\u0131d"])
+            if r.chance(0.2):
+                if not isinstance(c["doc"].get("settings"), dict):
+                    c["doc"]["settings"] = {}
+                st = c["doc"]["settings"]
+                st["alloc_sections"] = r.pick([["\u00e9a", ".text"], ["\u00dfx"], ["."], [""], [".text", ".text"]])
+                st["linker_symbols_style"] = "makerom"
+            c["stream"] = "mutated"
+        elif k == 3:
+            text = tree.to_yaml(c["doc"])
+            raw = bytearray(text.encode("utf-8"))
+            how = r.below(7)
+            if how == 0 and raw:
+                raw = raw[: r.below(len(raw))]
+            elif how == 1 and raw:
+                for _ in range(1 + r.below(8)):
+                    raw[r.below(len(raw))] = r.below(256)
+            elif how == 2 and raw:
+                pos = r.below(len(raw))
+                raw[pos:pos] = bytes(r.below(256) for _ in range(1 + r.below(6)))
+            elif how == 3 and raw:
+                a = r.below(len(raw))
+                b = min(len(raw), a + r.below(200))
+                raw[a:a] = raw[a:b] * (1 + r.below(4))
+            elif how == 4:
+                raw = bytearray(r.pick(HOSTILE_SNIPPETS).encode("utf-8"))
+            elif how == 5 and raw:
+                for _ in range(1 + r.below(4)):
+                    pos = r.below(len(raw))
+                    raw[pos:pos + 1] = r.pick([b"{", b"}", b"[", b"]", b":", b",", b"\"", b"&a ", b"*a", b"!!str ", b"\t", b"\n", b"- ", b"? "])
+            else:
+                raw = bytearray(("x: " * (1 + r.below(50))).encode() + raw)
+            c["raw"] = list(raw)
+            c["stream"] = "raw-bytes"
+        else:
+            c["stream"] = "valid"
+        c["link"] = (c["stream"] == "valid" and idx % self.link_every == 0)
+        return c
+
+    def nontrivial(self, c):
+        return True
+
+    def evaluate(self, w, c):
+        from .engine import impl_request
+        if "raw" in c:
+            req = {"id": c["id"], "yaml_bytes": c["raw"], "opts": c["opts"], "mode": c["mode"], "version_comment": False}
+            impl = w.h.run(req)
+            res = {"impl_outcome": impl.get("outcome"), "impl_err": impl.get("err_kind"), "model_outcome": None, "model_err": None}
+            if impl.get("outcome") in ("ok", "err"):
+                res.update(status="ok", why="")
+            else:
+                res.update(status="violation", why="implementation %s on raw input: %s" % (impl.get("outcome"), impl.get("err_msg")))
+            return res
+        impl, v = w.eval(c, [self.pid])
+        res = {"impl_outcome": impl.get("outcome"), "impl_err": impl.get("err_kind"),
+               "model_outcome": v.get("model_outcome"), "model_err": v.get("model_err")}
+        if impl.get("outcome") not in ("ok", "err"):
+            res.update(status="violation", why="implementation %s: %s" % (impl.get("outcome"), impl.get("err_msg")))
+            return res
+        if v.get("model_outcome") == "diverge":
+            res.update(status="corr", why="the model's recursion bound is exhausted where the implementation returns")
+            return res
+        if v.get("model_outcome") in ("ok", "err") and not v.get("outcome_agree"):
+            res.update(status="corr", why="model %s/%s vs implementation %s/%s" % (v.get("model_outcome"), v.get("model_err"), impl.get("outcome"), impl.get("err_kind")))
+            return res
+        res.update(status="ok", why="")
+        if impl.get("outcome") == "ok" and c.get("link"):
+            bad = link_syntax_check(c, impl)
+            res["linked"] = bad is not None
+            if bad:
+                res.update(status="violation", why="a linker rejects the syntax of the generated script: " + "; ".join(bad)[:400])
+        return res
+
+
+def script_inputs(script):
+    """(path, member) pairs named by the input statements of a script text"""
+    import re
+    out = []
+    for line in script.split("\n"):
+        t = line.strip()
+        m = re.match(r"^(?:KEEP\()?([^()\s:;=]+)(?::([^()\s]+))?\(([^()]*)\)\)?;$", t)
+        if m and not t.startswith("*(") and " = " not in t:
+            out.append((m.group(1), m.group(2)))
+    return out
+
+
+def link_syntax_check(c, impl):
+    """hands the implementation's script(s) to GNU ld and lld with all referenced files present (empty objects);
+    returns the list of syntax diagnostics, [] if none, None if the case is not linkable (unsafe names)"""
+    from . import ldlab
+    scripts = [("main", impl["script"])] + [(n, s) for n, s in impl.get("partials", [])]
+    lab = ldlab.Lab("c19")
+    try:
+        bad = []
+        for name, script in scripts:
+            ins = script_inputs(script)
+            if any(not ldlab.SAFE_PATH.match(p) or p.startswith("/") or ".." in p.split("/") or (m and not ldlab.SAFE_MEMBER.match(m)) for p, m in ins):
+                return None
+            objs = []
+            seen = set()
+            for p, m in ins:
+                if p in seen:
+                    continue
+                seen.add(p)
+                if m is not None or p.endswith(".a"):
+                    members = sorted({mm for pp, mm in ins if pp == p and mm and mm != "*"}) or ["member.o"]
+                    lab.archive(p, [(mm, "") for mm in members])
+                else:
+                    lab.assemble(p, "")
+                objs.append(p)
+            rel = name != "main"
+            rc, out = lab.link(script, inputs=objs, relocatable=rel, out=(name + ".o" if rel else "out.elf"))
+            bad += ["ld(%s): %s" % (name, x) for x in ldlab.syntax_diagnostics(out)]
+            if not rel:
+                rc2, out2 = lab.link(script, inputs=objs, out="out_lld.elf", lld=True)
+                bad += ["lld(%s): %s" % (name, x) for x in ldlab.syntax_diagnostics(out2)]
+        return bad
+    except RuntimeError:
+        return None
+    finally:
+        lab.close()
+
+
+class C20(Property):
+    pid = "C20"
+    title = "CLI and file exports"
+    quick_n = 160
+    thorough_n = 4000
+    rule = ("valid-stream documents run through the real slinky-cli binary (built from /repo) in scratch directories: with and without -o "
+            "(with {key}), --partial-linking, --omit-version-comment, custom options spelled as repeated -c, comma lists, "
+            "--custom-options, repeated keys and '=' in values, a piece without '='; prior states of every output location in {absent, "
+            "missing parents, existing longer file}. The resulting tree, standard output and exit class are compared with the model's "
+            "cliRun. Non-trivial: at least two output files or a repeated option key")
+
+    def profile(self, r):
+        return Profile(dpath=0.7, header=0.7, p_partial=0.4, p_missing_key=0.04, max_segments=3, max_files=3, p_braces=0.4)
+
+    def tweak(self, r, c):
+        # spell the options as CLI arguments
+        pairs = [list(p) for p in c["opts"]]
+        if r.chance(0.3) and pairs:
+            pairs.append([pairs[0][0], r.pick(["us", "jp", "x=y", "a=b=c"])])     # repeated key, last wins; '=' inside a value
+        if r.chance(0.2) and pairs:
+            pairs.insert(0, [pairs[-1][0], "early"])
+        pairs = [p for p in pairs if "," not in p[1]]
+        args, cur = [], []
+        for k, v in pairs:
+            cur.append("%s=%s" % (k, v))
+            if r.chance(0.5):
+                args.append(",".join(cur))
+                cur = []
+        if cur:
+            args.append(",".join(cur))
+        if r.chance(0.04):
+            args.append("novalue")          # clap rejects it: non-zero exit, nothing written
+        c["cli_opts"] = args
+        c["cli_long"] = [r.chance(0.3) for _ in args]
+        c["opts"] = pairs
+        if r.chance(0.7):
+            c["out"] = r.pick(["out/{version}/script.ld", "script.ld", "a/b/c/s.ld", "{region}.ld", "o.ld"])
+        c["prior"] = r.pick(["absent", "absent", "longer", "longer", "dirs"])
+
+    def nontrivial(self, c):
+        st = c["doc"].get("settings") or {}
+        nfiles = sum(1 for k in ("d_path", "symbols_header_path") if k in st) + (1 if "out" in c else 0) + (2 if c["mode"] == "partial" else 0)
+        keys = [a.split("=")[0] for piece in c.get("cli_opts", []) for a in piece.split(",")]
+        return nfiles >= 2 or len(keys) != len(set(keys))
+
+    def evaluate(self, w, c):
+        import os, shutil, subprocess
+        from . import run
+        res = {"impl_outcome": None, "impl_err": None, "model_outcome": None, "model_err": None}
+        if not fs_safe(c) or any(v.startswith("/") or ".." in v for _, v in c["opts"]):
+            res.update(status="skip", why="paths could leave the scratch directory")
+            return res
+        cli = os.path.join(run.BUILD, "repo-target", "debug", "slinky-cli")
+        d = os.path.join(run.BUILD, "cli", "p%d_%s" % (os.getpid(), c["id"]))
+        shutil.rmtree(d, ignore_errors=True)
+        os.makedirs(d)
+        try:
+            # model first with an empty prior state, to learn the output locations
+            pc = {k: v for k, v in c.items() if k != "doc"}
+            pc["doc"] = tree.to_proto(c["doc"])
+            pc["pre"] = []
+            v0 = w.d.ask({"op": "cli", "case": pc, "impl": {"exit_zero": False, "files": {}, "stdout": ""}})
+            pre = []
+            if c["prior"] == "longer":
+                pre = [[p, "STALE CONTENT THAT IS MUCH LONGER THAN ANYTHING\n" * 400] for p in v0.get("model_paths", [])]
+            elif c["prior"] == "dirs":
+                pre = [[os.path.join(os.path.dirname(p), "keep.txt") if os.path.dirname(p) else "keep.txt", "k"] for p in v0.get("model_paths", [])]
+            pre = [list(x) for x in dict((a, b) for a, b in pre).items()]
+            for pth, content in pre:
+                full = os.path.join(d, pth)
+                os.makedirs(os.path.dirname(full), exist_ok=True)
+                with open(full, "w") as f:
+                    f.write(content)
+            with open(os.path.join(d, "input.yaml"), "w") as f:
+                f.write(tree.to_yaml(c["doc"]))
+            argv = [cli, "input.yaml"]
+            if "out" in c:
+                argv += ["-o", c["out"]]
+            if c["mode"] == "partial":
+                argv.append("--partial-linking")
+            if not c.get("version_comment", False):
+                argv.append("--omit-version-comment")
+            for a, lng in zip(c["cli_opts"], c["cli_long"]):
+                argv += ["--custom-options" if lng else "-c", a]
+            p = subprocess.run(argv, cwd=d, capture_output=True, text=True, timeout=30)
+            files = {}
+            for root, _, fs in os.walk(d):
+                for fn in fs:
+                    full = os.path.join(root, fn)
+                    rel = os.path.relpath(full, d)
+                    if rel == "input.yaml":
+                        continue
+                    files[rel] = open(full, errors="replace").read()
+            impl = {"exit_zero": p.returncode == 0, "files": files, "stdout": p.stdout, "rc": p.returncode}
+            pc["pre"] = [[a, b] for a, b in pre]
+            v = w.d.ask({"op": "cli", "case": pc, "impl": impl})
+            res["impl_outcome"] = "ok" if p.returncode == 0 else "exit%d" % p.returncode
+            res["model_outcome"] = "ok" if v.get("model_exit_zero") else "nonzero"
+            if p.returncode < 0 or p.returncode in (134, 139):
+                res.update(status="violation", why="the CLI died with signal/abort rc=%d" % p.returncode)
+            elif not v["exit_agree"]:
+                res.update(status="violation", why="exit status: CLI rc=%d, expected %s; stderr: %s" % (
+                    p.returncode, "0" if v.get("model_exit_zero") else "non-zero", p.stderr[-300:]))
+            elif p.returncode == 0 and not v["files_equal"]:
+                res.update(status="violation", why="files on disk differ from the library's in-memory outputs: " + ",".join(v.get("unequal", []))[:300])
+            elif p.returncode == 0 and not v["stdout_equal"]:
+                res.update(status="violation", why="standard output differs from the script plus one line break")
+            else:
+                res.update(status="ok", why="")
+            return res
+        finally:
+            shutil.rmtree(d, ignore_errors=True)
+
+
 OVER = ["alloc_sections", "noload_sections", "subalign", "segment_start_align", "segment_end_align",
         "section_start_align", "section_end_align", "sections_start_alignment", "sections_end_alignment",
         "wildcard_sections", "fill_value", "sections_subgroups"]
@@ -1000,4 +1297,4 @@ class C08(Property):
         return cases
 
 
-PROPS = {p.pid: p for p in [C06(), C07(), C08(), C12(), C13(), C14(), C15(), C16(), C17(), C18()]}
+PROPS = {p.pid: p for p in [C06(), C07(), C08(), C12(), C13(), C14(), C15(), C16(), C17(), C18(), C19(), C20()]}
